@@ -54,6 +54,7 @@ deliberately bad trial step, |D| > 1e4 (Exp loses its phase / overflows), damped
 from __future__ import annotations
 
 import contextlib
+import copy
 import io
 import json
 import math
@@ -371,7 +372,8 @@ def target_tensors(tg, D):
         elif isinstance(t.get("alias_of"), int):
             tl.append(tl[t["alias_of"]]); info.append(None)
         else:
-            v, buf = G.laid_out(torch.tensor(t["values"], dtype=torch.float64).to(D).reshape(t["shape"]), t.get("layout"))
+            tD = getattr(torch, t["tdtype"]) if t.get("tdtype") else D      # (30) targets of another dtype (promotion keeps the parameters')
+            v, buf = G.laid_out(torch.tensor(t["values"], dtype=torch.float64).to(tD).reshape(t["shape"]), t.get("layout"))
             if t.get("as_lie"):        # (13) the target of an algebra-valued output given as a LieTensor
                 v = pp().LieTensor(v, ltype=U.ltype(U.ALG[t["as_lie"]]))
             tl.append(v); info.append((buf, t.get("layout")))
@@ -423,16 +425,36 @@ def build_env(case):
     env.upd_calls = []
     GNc, LMc = P.optim.GN, P.optim.LM
     if sub:     # (21) the user's own optimizer classes, overriding update_parameter (and delegating to the library's)
-        def _upd(self, params, step, _log=env.upd_calls, **kw):
+        def _upd_gn(self, params, step, _log=env.upd_calls, **kw):
             _log.append(int(step.numel()))
-            return super(type(self), self).update_parameter(params=params, step=step)
-        GNc = type("UserGN", (P.optim.GN,), {"update_parameter": _upd})
-        LMc = type("UserLM", (P.optim.LM,), {"update_parameter": _upd})
+            return P.optim.GN.update_parameter(self, params=params, step=step)
+
+        def _upd_lm(self, params, step, _log=env.upd_calls, **kw):
+            _log.append(int(step.numel()))
+            return P.optim.LM.update_parameter(self, params, step)
+        GNc = type("UserGN", (P.optim.GN,), {"update_parameter": _upd_gn})
+        LMc = type("UserLM", (P.optim.LM,), {"update_parameter": _upd_lm})
+    # (33) a user subclass that provides `weight` as a PROPERTY (the constructor receives None): the step must read the
+    # public attribute, not a private copy made at construction
+    env.prop_weight = bool(sub and case.get("prop_weight") and wct is not None)
+    if env.prop_weight:
+        def _getw(self, _w=wct):
+            return _w
+
+        def _setw(self, value):
+            pass
+        GNc = type("UserGNw", (GNc,), {"weight": property(_getw, _setw)})
+        LMc = type("UserLMw", (LMc,), {"weight": property(_getw, _setw)})
+    wct_arg = None if env.prop_weight else wct
+    omit = bool(case.get("omit"))          # (29) optional arguments OMITTED (not passed at all), so that defaults from the signature apply
     if case["opt"] == "GN":
-        if pos:
-            opt = GNc(env.model, inner, env.kernels, corr, wct, case["vectorize"])
+        if pos and not omit:
+            opt = GNc(env.model, inner, env.kernels, corr, wct_arg, case["vectorize"])
         else:
-            opt = GNc(env.model, solver=inner, kernel=env.kernels, corrector=corr, weight=wct, vectorize=case["vectorize"])
+            kw_ = {"solver": inner, "kernel": env.kernels, "corrector": corr, "weight": wct_arg}
+            if omit:
+                kw_ = {k_: v_ for k_, v_ in kw_.items() if v_ is not None}
+            opt = GNc(env.model, vectorize=case["vectorize"], **kw_)
     else:
         strat = None
         if case["strategy"] is not None:
@@ -442,13 +464,17 @@ def build_env(case):
         for k_ in ("reject", "min", "max"):         # None = the argument is not passed (library default)
             if case.get(k_) is not None:
                 opts[k_] = case[k_]
-        if pos and len(opts) == 3 and case.get("strategy") is not None:
-            opt = LMc(env.model, inner, strat, env.kernels, corr, wct, case["reject"], case["min"], case["max"], case["vectorize"])
+        if pos and len(opts) == 3 and case.get("strategy") is not None and not omit:
+            opt = LMc(env.model, inner, strat, env.kernels, corr, wct_arg, case["reject"], case["min"], case["max"], case["vectorize"])
         else:
-            opt = LMc(env.model, solver=inner, strategy=strat, kernel=env.kernels, corrector=corr, weight=wct,
-                             vectorize=case["vectorize"], **opts)
+            kw_ = {"solver": inner, "strategy": strat, "kernel": env.kernels, "corrector": corr, "weight": wct_arg}
+            if omit:
+                kw_ = {k_: v_ for k_, v_ in kw_.items() if v_ is not None}
+            opt = LMc(env.model, vectorize=case["vectorize"], **kw_, **opts)
         if strat is None:   # default strategy: wrap what the optimizer created
+            env.default_strategy_obj = opt.strategy
             opt.strategy = (user_subclass(RecStrategy, opt.strategy) if sub else RecStrategy)(opt.strategy, env.str_log)
+    env.default_solver_obj = opt.solver
     env.user_corr = corr
     env.default_solver = type(opt.solver).__name__
     env.solver = (user_subclass(RecSolver, opt.solver) if sub else RecSolver)(opt.solver, env.sol_log)
@@ -735,7 +761,7 @@ def run_interleaved(ctx: Ctx, cases, pending):
             except Exception as e:
                 import traceback
                 ctx.fail(cdesc(cases[i_]), f"crash: the step produced something the check could not process — {type(e).__name__}: "
-                                           f"{str(e)[:160]} | " + traceback.format_exc()[-600:].replace("\n", " / "))
+                                           f"{str(e)[:160]} | " + traceback.format_exc()[-1500:].replace("\n", " / "))
                 res[i_] = False
                 live.remove(i_)
     return res
@@ -1032,7 +1058,8 @@ def _check_case_gen(ctx: Ctx, case, pending):
                 st["ok"] = False
         # purity of everything the caller passed, guard regions of the buffers behind views, public attributes
         for (nm, t_), s0 in zip(held, snaps):
-            if not torch.equal(torch.nan_to_num(t_, nan=12345.0), torch.nan_to_num(s0, nan=12345.0)):
+            same_ = torch.equal(t_, s0) if not t_.is_floating_point() else torch.equal(torch.nan_to_num(t_, nan=12345.0), torch.nan_to_num(s0, nan=12345.0))
+            if not same_:
                 ctx.fail(cd, f"purity: step() changed the caller's {nm} tensor ({tag})")
                 st["ok"] = False
         bufs_ok = (all(G.guard_ok(b_, l_) for b_, l_ in getattr(env, "in_bufs", [])) and weight_guard_ok(env.wstep_info)
@@ -1487,6 +1514,10 @@ def _check_case_gen(ctx: Ctx, case, pending):
             if "raised" in s:
                 ctx.count("solve.raised")
                 continue
+            if any(w_.get("asym") for w_ in ((ecase["weight_step"] if call.get("weight") == "step" else ecase["weight_ctor"]) or [])) \
+                    and case["opt"] == "LM":
+                ctx.count("solve.asym-weight")      # Cholesky / hermitian pinv read one triangle of a matrix that is not symmetric
+                continue
             if case["solver"] == "CG":
                 continue
             A, b, D = s["A"].double(), s["b"].double().reshape(-1), s["D_true"].double().reshape(-1)
@@ -1776,7 +1807,7 @@ def gen_spd(rng, d, mag=None):
     return [[mag * M[i][j] for j in range(d)] for i in range(d)]
 
 
-def gen_weight(rng, shapes, dtype, force_suffix=None, layouts=0.0, wide=False, layout=None, alias=0.0, zero_block=0.0):
+def gen_weight(rng, shapes, dtype, force_suffix=None, layouts=0.0, wide=False, layout=None, alias=0.0, zero_block=0.0, asym=0.0):
     """SPD weights, one per residual, in a documented shape (suffix of the batch shape + (d, d)).  `layouts` = probability
     of a non-contiguous memory layout, `layout` forces one, `alias` = probability that two residuals share one tensor"""
     ws = []
@@ -1791,13 +1822,21 @@ def gen_weight(rng, shapes, dtype, force_suffix=None, layouts=0.0, wide=False, l
             continue
         nb = int(math.prod(wb))
         vals = []
+        asym_used = False
         for _ in range(nb):
             mag = rng.choice([1e-8, 1e8, 1e-5, 1e5]) if (wide and rng.random() < 0.5) else None
             vals += [x for row in gen_spd(rng, d, mag) for x in row]
         t = torch.tensor(vals, dtype=torch.float64).to(U.dt(dtype)).to(torch.float64)
+        if rng.random() < asym and d >= 2:       # (36) NEARLY symmetric: a relative asymmetry of 1e-6 (between round-off and 1e-5)
+            tt = t.reshape(nb, d, d)
+            sk = torch.triu(torch.ones(d, d, dtype=torch.float64), 1) - torch.tril(torch.ones(d, d, dtype=torch.float64), -1)
+            tt.mul_(1.0 + 1e-6 * sk)
+            asym_used = True
         if rng.random() < zero_block:            # (20) a weight that is exactly zero for one block (boundary of the SPD cone)
             t.reshape(nb, d * d)[rng.randrange(nb)] = 0.0
         spec = {"shape": wb + [d, d], "values": t.tolist()}
+        if asym_used:
+            spec["asym"] = True
         lay = layout if layout is not None else (rng.choice(["mT", "slice", "tbatch", "bslice", "expand"]) if rng.random() < layouts else "contig")
         if lay == "expand":
             if j < len(batch):      # the same values, presented as the next longer documented shape through expand()
@@ -1817,7 +1856,7 @@ def gen_weight(rng, shapes, dtype, force_suffix=None, layouts=0.0, wide=False, l
     return ws
 
 
-def gen_targets(rng, outs, dtype, tmode, tscale=None, layouts=0.0, alias=0.0, first_scales=None):
+def gen_targets(rng, outs, dtype, tmode, tscale=None, layouts=0.0, alias=0.0, first_scales=None, tdtypes=0.0, tdtype=None):
     """targets at a chosen distance from the current outputs; tmode `peritem`: every batch item its own distance
     (exact / tiny / ordinary / large mixed in one batch)"""
     if tmode == "none":
@@ -1846,6 +1885,12 @@ def gen_targets(rng, outs, dtype, tmode, tscale=None, layouts=0.0, alias=0.0, fi
             sc = tscale if tscale is not None else rng.choice(ladder)
         t = (o.double() + sc * noise).to(U.dt(dtype)).to(torch.float64)
         spec = {"shape": list(o.shape), "values": t.reshape(-1).tolist()}
+        if rng.random() < tdtypes:
+            td_ = tdtype or rng.choice(["int64", "int32", "int16", "int8", "uint8", "float16", "bfloat16"] + (["float32"] if dtype == "float64" else []))
+            tv = t.round().clamp(0 if td_ == "uint8" else (-120 if td_ == "int8" else -30000), 250 if td_ == "uint8" else (120 if td_ == "int8" else 30000)) \
+                if td_.startswith(("int", "uint")) else t
+            spec["values"] = tv.to(getattr(torch, td_)).to(torch.float64).reshape(-1).tolist()
+            spec["tdtype"] = td_
         if rng.random() < layouts:
             spec["layout"] = rng.choice(["slice", "step", "perm"])
         tg.append(spec)
@@ -1892,8 +1937,33 @@ def make_case(rng, **force):
             start = rng.choice(unused) if unused and rng.random() < 0.85 else rng.choice(pidx)
             node, ty = bld.chain(start, force.get("depth", rng.choice([1, 1, 2, 2, 3, 4])))
             roots.append(node); rtys.append(ty)
+        # (31) models that hand back what they were given: a parameter itself / a view of it / the input itself as a
+        # residual, two residual outputs that are one tensor or views of one another
+        am = force.get("alias_model")
+        if am is None and rng.random() < 0.1:
+            am = rng.choice(["param", "view", "input", "same_out", "view_out"])
+        if am == "param":
+            cand = [i for i in pidx if bld.leaves[i]["ty"][0] in ("E", "A") and not bld.leaves[i].get("zerodim")]
+            if cand:
+                roots[0] = ["L", rng.choice(cand)]
+        elif am == "view":
+            cand = [i for i in pidx if bld.leaves[i]["ty"][0] in ("E", "A") and not bld.leaves[i].get("zerodim")]
+            if cand:
+                roots[0] = ["Slice", 2, ["L", rng.choice(cand)]]
+        elif am == "input":
+            cand = [i for i, lf in enumerate(bld.leaves) if lf["role"] == "input" and lf["ty"][0] == "E"]
+            if not cand and force.get("alias_model"):
+                cand = [bld.new_leaf(["E", 3], "input")]
+            if cand:
+                roots = roots[:1] + [["L", rng.choice(cand)]]
+        elif am == "same_out":
+            roots = roots[:1] + [["OutRef", 0, 0]]
+        elif am == "view_out":
+            roots = roots[:1] + [["OutRef", 0, 2]]
+        if am is not None:      # the types of replaced roots are no longer those of the chains: no LieTensor-typed targets for them
+            rtys = [rtys[0] if am in ("input", "same_out", "view_out") else ["E", 0]] + [["E", 0] for _ in roots[1:]]
         case = {"kind": "step", "dtype": dtype, "leaves": bld.leaves, "roots": roots,
-                "out_as_tensor": [True for _ in roots], "tuple_out": nres == 1 and rng.random() < 0.2,
+                "out_as_tensor": [True for _ in roots], "tuple_out": len(roots) == 1 and rng.random() < 0.2,
                 "input_mode": rng.choice(["tuple", "tuple", "list", "dict", "single"])}
         n_in = sum(1 for lf in bld.leaves if lf["role"] == "input")
         if n_in == 0:
@@ -1919,6 +1989,11 @@ def make_case(rng, **force):
             if not lf.get("zerodim") and len(lf["values"]) >= 2:
                 lf["values"][1] = list(lf["values"][0])
         case["dup"] = True
+        if rng.random() < force.get("dup_near", 0.5):          # (36) NEARLY equal instead of equal: 1e-7 relative (rank decisions by isclose show here)
+            for lf in case["leaves"]:
+                if not lf.get("zerodim") and len(lf["values"]) >= 2 and lf["ty"][0] in ("E", "S", "A"):
+                    lf["values"][1] = [x_ * (1 + 1e-7) for x_ in lf["values"][0]]
+            case["dup"] = "near"
         outs = G.out_batch_dims(case)
     # memory layouts: parameters that are views into a larger buffer of the caller, non-contiguous inputs
     vprob, lprob = force.get("views", 0.12), force.get("layouts", 0.15)
@@ -1929,7 +2004,8 @@ def make_case(rng, **force):
             lf["layout"] = rng.choice(["slice", "step", "perm", "bslice"])
     # targets
     tmode = force.get("target", rng.choice(["near", "near", "near", "none", "mixed", "peritem", "peritem", "above", "below"]))
-    case["targets"] = gen_targets(rng, outs, dtype, tmode, force.get("tscale"), lprob, force.get("alias", 0.3), force.get("first_scales"))
+    case["targets"] = gen_targets(rng, outs, dtype, tmode, force.get("tscale"), lprob, force.get("alias", 0.3), force.get("first_scales"),
+                                  force.get("tdtypes", 0.12), force.get("tdtype"))
     if case["targets"] is not None:
         if not any(t is not None for t in case["targets"]) and rng.random() < 0.5:
             case["targets"] = None
@@ -1997,6 +2073,8 @@ def make_case(rng, **force):
                     sp_["as_lie"] = ty_[1]
     case["ktuple"] = rng.random() < 0.3
     case["subclass"] = rng.random() < force.get("subclass", 0.3)          # (21) user subclasses of every shipped class involved
+    case["prop_weight"] = rng.random() < force.get("prop_weight", 0.5)                              # (33) … that provide `weight` as a property
+    case["omit"] = rng.random() < force.get("omit", 0.4)                  # (29) None-valued optional arguments are not passed at all
     if dtype == "float32" and rng.random() < force.get("defdtype", 0.4):
         case["default_dtype"] = "float64"                                  # (25) process default differs from the operands' dtype
     case["ctor_style"] = rng.choice(["kw", "kw", "pos"])
@@ -2006,7 +2084,7 @@ def make_case(rng, **force):
     # weights
     wmode = force.get("wmode", rng.choice(["none", "none", "ctor", "ctor", "step", "both"]))
     wkw = dict(layouts=force.get("wlayouts", 0.2), wide=rng.random() < force.get("wide", 0.06) * 2, layout=force.get("wlayout"),
-               alias=force.get("alias", 0.3), zero_block=force.get("zero_block", 0.04))
+               alias=force.get("alias", 0.3), zero_block=force.get("zero_block", 0.04), asym=force.get("asym", 0.06) if dtype == "float64" else 0.0)
     case["weight_ctor"] = gen_weight(rng, shapes, dtype, force.get("wsuffix"), **wkw) if wmode in ("ctor", "both") else None
     case["weight_step"] = gen_weight(rng, shapes, dtype, force.get("wsuffix"), **wkw) if wmode in ("step", "both") else None
     case["wstyle"] = rng.choice(["list", "tuple", "tensor"])
@@ -2097,7 +2175,7 @@ def make_case(rng, **force):
                     for ov in newin.values():
                         ov.pop("layout", None)       # the overwritten tensor keeps its memory layout
                 if same_shapes and call["weight"] == "ctor" and case["weight_ctor"] is not None and rng.random() < 0.5:
-                    fresh = gen_weight(rng, shapes_c, dtype, None, layouts=0.0, wide=False, layout="contig", alias=0.0, zero_block=0.0)
+                    fresh = gen_weight(rng, shapes_c, dtype, None, layouts=0.0, wide=False, layout="contig", alias=0.0, zero_block=0.0, asym=0.0)
                     edits = []
                     for w0, w1 in zip(case["weight_ctor"], fresh):
                         edits.append(w1["values"] if (w0["shape"] == w1["shape"] and w0.get("layout", "contig") == "contig"
@@ -2496,9 +2574,11 @@ def run_large_update(ctx: Ctx, pending):
     stack of pieces bit for bit, first / last / middle item == the item alone, the 192-bit model on a sample incl. the last"""
     P = pp()
     rng = random.Random(7_0711)
-    plans = [("SO3", 2 ** 16 + 1, "float64"), ("SE3", 2 ** 14 + 1, "float32"), ("RxSO3", 2 ** 14 + 1, "float64"), ("Sim3", 2 ** 16 + 1, "float32")]
+    plans = [("SO3", 2 ** 16 + 1, "float64"), ("SE3", 2 ** 14 + 1, "float32"), ("RxSO3", 2 ** 14 + 1, "float64"), ("Sim3", 2 ** 16 + 1, "float32"),
+             ("SE3", 2 ** 17 + 37, "float64")]            # (34) beyond 2^17 in quick
     if not ctx.quick:
-        plans += [("SE3", 2 ** 16 + 1, "float64"), ("Sim3", 2 ** 14 + 1, "float64"), ("SO3", 2 ** 14, "float32"), ("RxSO3", 2 ** 16 - 1, "float32")]
+        plans += [("SE3", 2 ** 16 + 1, "float64"), ("Sim3", 2 ** 14 + 1, "float64"), ("SO3", 2 ** 14, "float32"), ("RxSO3", 2 ** 16 - 1, "float32"),
+                  ("SO3", 2 ** 18 + 1, "float32"), ("Sim3", 2 ** 18 + 37, "float64"), ("RxSO3", 2 ** 20 + 1, "float32"), ("SE3", 2 ** 20 + 1, "float64")]
     for g, N, dt_ in plans:
         D_ = U.dt(dt_)
         eps = EPS[dt_]
@@ -2534,12 +2614,12 @@ def run_large_update(ctx: Ctx, pending):
         try:
             whole = upd(X, step)
             ok_ = True
-            for a_ in sorted({1, N // 2, N - 1, 1 << (N.bit_length() - 1)}):
+            for a_ in sorted({1, N // 2, N - 1, 1 << (N.bit_length() - 1)} | {(N >> k_) << k_ for k_ in (12, 16, 17, 18)}):
                 if 0 < a_ < N and not torch.equal(whole, torch.cat([upd(X[:a_], step[:a_]), upd(X[a_:], step[a_:])])):
                     ctx.fail(case, f"split: update_parameter on {N} {g} items is not the stack of the updates of items [0,{a_}) and [{a_},{N})")
                     ok_ = False
                     break
-            sample = sorted({0, 1, 2, 6, 7, 13, N // 2, N - 2, N - 1} | {i_ for i_ in range(len(thetas) + 2)})
+            sample = sorted({0, 1, 2, 6, 7, 13, N // 2, N - 37, N - 2, N - 1} | {i_ for i_ in range(len(thetas) + 2)})
             for i_ in (sample if ok_ else []):
                 if not torch.equal(whole[i_:i_ + 1], upd(X[i_:i_ + 1], step[i_:i_ + 1])):
                     ctx.fail(case, f"split: item {i_} of update_parameter on {N} {g} items differs from the update of that item alone "
@@ -2599,13 +2679,18 @@ def run_large_corrector(ctx: Ctx):
     first / last / middle item == the item alone, up to the rounding of the d-term sums"""
     P = pp()
     import pypose.optim.corrector as C
-    N = 2 ** 16 + 1
     gen = torch.Generator().manual_seed(70712)
-    for dt_ in (("float64",) if ctx.quick else ("float64", "float32")):
-        D_ = U.dt(dt_)
-        eps = EPS[dt_]
-        for cname, kspec in (("FastTriggs", {"name": "Huber", "args": [1.0]}), ("Triggs", {"name": "UserQuad", "args": [0.3]}),
-                             ("FastTriggs", {"name": "Cauchy", "args": [0.5]})):
+    trio = (("FastTriggs", {"name": "Huber", "args": [1.0]}), ("Triggs", {"name": "UserQuad", "args": [0.3]}),
+            ("FastTriggs", {"name": "Cauchy", "args": [0.5]}))
+    # (34) beyond 2^17 in quick; 2^18+1, 2^18+37, 2^20+1 in thorough; cuts at the last multiple of 2^k for several k
+    plans = [(2 ** 16 + 1, "float64", c_, k_) for c_, k_ in trio] + [(2 ** 17 + 37, "float64", *trio[0]), (2 ** 17 + 37, "float32", *trio[1])]
+    if not ctx.quick:
+        plans += [(2 ** 16 + 1, "float32", c_, k_) for c_, k_ in trio]
+        plans += [(n_, d_, c_, k_) for n_, d_ in ((2 ** 18 + 1, "float64"), (2 ** 18 + 37, "float32"), (2 ** 20 + 1, "float64")) for c_, k_ in trio]
+    for N, dt_, cname, kspec in plans:
+        if True:
+            D_ = U.dt(dt_)
+            eps = EPS[dt_]
             R = torch.randn(N, 2, generator=gen, dtype=torch.float64)
             R[::5] *= 1e-9; R[3::11] = 0.0; R[4::13] *= 30.0
             J = torch.randn(2 * N, 3, generator=gen, dtype=torch.float64)
@@ -2619,12 +2704,24 @@ def run_large_corrector(ctx: Ctx):
                 return raw(a_).clone(), raw(b_).clone()
             try:
                 Rw, Jw = corr(R, J)
-                cut = 1 << 16
-                R1, J1 = corr(R[:cut], J[:2 * cut]); R2, J2 = corr(R[cut:], J[2 * cut:])
                 scR = R.double().abs().amax(1, keepdim=True) + 1e-300
-                okc = (bool(((Rw.double() - torch.cat([R1, R2]).double()).abs() <= 64 * eps * scR * (1 + Rw.double().abs() / scR)).all())
-                       and bool(((Jw.double() - torch.cat([J1, J2]).double()).abs() <= 64 * eps * (Jw.double().abs() + J.double().abs())).all()))
-                for i_ in (0, N - 1, N // 2, 3, 4):
+                okc = True
+                for k_ in (16, 12, 17, 18, 20):
+                    cut = (N >> k_) << k_
+                    if not 0 < cut < N:
+                        continue
+                    R1, J1 = corr(R[:cut], J[:2 * cut]); R2, J2 = corr(R[cut:], J[2 * cut:])
+                    okc = okc and R2.shape[0] == N - cut and J2.shape[0] == 2 * (N - cut) \
+                        and bool(((Rw.double() - torch.cat([R1, R2]).double()).abs() <= 64 * eps * scR * (1 + Rw.double().abs() / scR)).all()) \
+                        and bool(((Jw.double() - torch.cat([J1, J2]).double()).abs() <= 64 * eps * (Jw.double().abs() + J.double().abs())).all())
+                if cname == "FastTriggs":      # all items against the documented formula: R·sqrt(rho'), J·sqrt(rho'), rho' at ||r||^2
+                    xx = (R.double() ** 2).sum(1, keepdim=True).requires_grad_(True)
+                    with torch.enable_grad():
+                        rho1, = torch.autograd.grad(build_kernel(kspec)(xx).sum(), xx)
+                    sq = rho1.detach().sqrt()
+                    okc = okc and bool(((Rw.double() - R.double() * sq).abs() <= 64 * eps * scR).all()) \
+                        and bool(((Jw.double() - J.double() * sq.repeat_interleave(2, 0)).abs() <= 64 * eps * J.double().abs()).all())
+                for i_ in (0, N - 1, N // 2, 3, 4, N - 2, N - 37 if N > 40 else 1):
                     Ri, Ji = corr(R[i_:i_ + 1], J[2 * i_:2 * i_ + 2])
                     okc = okc and bool(((Rw[i_:i_ + 1].double() - Ri.double()).abs() <= 64 * eps * (Rw[i_:i_ + 1].double().abs() + scR[i_:i_ + 1])).all()) \
                         and bool(((Jw[2 * i_:2 * i_ + 2].double() - Ji.double()).abs() <= 64 * eps * (Ji.double().abs() + J[2 * i_:2 * i_ + 2].double().abs())).all())
@@ -2632,8 +2729,168 @@ def run_large_corrector(ctx: Ctx):
                     ctx.fail(case, f"split: {cname}({kspec['name']}) on {N} residual items is not the stack of its values on the pieces / single items")
             except Exception as e:
                 ctx.fail(case, f"split: {cname}({kspec['name']}) on {N} residual items raises {type(e).__name__}: {str(e)[:160]}")
-            ctx.note_case(("large-corrector", cname, kspec["name"], dt_), True)
-            ctx.count("large.corrector.N65537")
+            ctx.note_case(("large-corrector", cname, kspec["name"], dt_, N), True)
+            ctx.count(f"large.corrector.N{N}")
+
+
+def run_defaults(ctx: Ctx):
+    """(29) several optimizers constructed with every optional argument OMITTED, used interleaved in one process. Each one is
+    compared, step by step and bit for bit, with a twin on a copy of the model that was constructed with the DOCUMENTED
+    defaults spelled out explicitly with fresh objects (LM: Cholesky(), TrustRegion(radius=1e6, high=.5, low=1e-3, up=2,
+    down=.5, factor=.5, min=1e-6, max=1e16), reject=16, min=1e-6, max=1e32; GN: PINV(); no kernel -> a single Trivial
+    corrector; a kernel without corrector -> FastTriggs(kernel)), and its param_group constants with the documented numbers.
+    Sharing of stateless default objects is only counted (it is harmless by itself)."""
+    P = pp()
+    gen = torch.Generator().manual_seed(70729)
+
+    class Mdl(nn.Module):
+        def __init__(self, dt, k):
+            super().__init__()
+            self.c = P.Parameter(P.se3(torch.randn(2, 6, dtype=torch.float64, generator=gen)).Exp().to(dt))
+            self.a = nn.Parameter((torch.randn(3, generator=gen, dtype=torch.float64) * (3.0 if k % 2 else 0.3)).to(dt))
+
+        def forward(self, x):
+            return self.c.Act(x) * self.a.exp() - 0.5
+    doc_pg = {"min": 1e-6, "max": 1e32, "radius": 1e6, "damping": 1e-6, "high": 0.5, "low": 1e-3, "up": 2.0, "down": 0.5, "factor": 0.5}
+    objs = []
+
+    def explicit(kind, m_, kern):
+        S = P.optim.solver
+        kw = {}
+        if kern is not None:
+            kw = dict(kernel=P.optim.kernel.Huber(kern), corrector=P.optim.corrector.FastTriggs(P.optim.kernel.Huber(kern)))
+        if kind == "LM":
+            return P.optim.LM(m_, solver=S.Cholesky(), strategy=P.optim.strategy.TrustRegion(radius=1e6, high=.5, low=1e-3, up=2., down=.5,
+                              factor=.5, min=1e-6, max=1e16), reject=16, min=1e-6, max=1e32, vectorize=True, **kw)
+        return P.optim.GN(m_, solver=S.PINV(), vectorize=True, **kw)
+
+    def fresh(kind, dt, kern):
+        m_ = Mdl(dt, len(objs))
+        m2 = copy.deepcopy(m_)
+        kw = {} if kern is None else {"kernel": P.optim.kernel.Huber(kern)}
+        o_ = P.optim.LM(m_, **kw) if kind == "LM" else P.optim.GN(m_, **kw)
+        case = {"kind": "defaults", "opt": kind, "dtype": str(dt), "kernel": kern, "built_after": len(objs)}
+        pg = o_.param_groups[0]
+        bad = []
+        if kind == "LM":
+            for k_, v_ in doc_pg.items():
+                if k_ not in pg or float(pg[k_]) != v_:
+                    bad.append(f"{k_}={pg.get(k_)} (documented {v_})")
+            if type(o_.solver).__name__ != "Cholesky" or type(o_.strategy).__name__ != "TrustRegion" or o_.reject != 16 or o_.reject_count != 0:
+                bad.append(f"solver {type(o_.solver).__name__}, strategy {type(o_.strategy).__name__}, reject {o_.reject}/{o_.reject_count}")
+        elif type(o_.solver).__name__ != "PINV":
+            bad.append(f"solver {type(o_.solver).__name__}")
+        want_c = "Trivial" if kern is None else "FastTriggs"
+        if len(o_.corrector) != 1 or type(o_.corrector[0]).__name__ != want_c or o_.weight is not None or hasattr(o_, "loss"):
+            bad.append(f"corrector {[type(c_).__name__ for c_ in o_.corrector]}, weight {o_.weight}, loss attr {hasattr(o_, 'loss')}")
+        for o2, _, _, _, _ in objs:      # sharing is counted, not judged
+            if any(getattr(o_, nm, None) is not None and getattr(o_, nm, None) is getattr(o2, nm, 0) for nm in ("solver", "strategy")) \
+                    or o_.corrector[0] is o2.corrector[0] or o_.corrector is o2.corrector:
+                ctx.count("defaults.shared-default-object")
+            if o_.param_groups[0] is o2.param_groups[0]:
+                bad.append("param_groups[0] is the same dict as that of an optimizer constructed earlier")
+        if bad:
+            ctx.fail(case, f"defaults: {kind}() constructed with its optional arguments omitted (after {len(objs)} other optimizers were built "
+                           f"and used) does not start from the documented defaults: {'; '.join(bad)[:400]}")
+        objs.append((o_, m_, explicit(kind, m2, kern), m2, case))
+        ctx.note_case(("defaults", kind, str(dt), kern, len(objs)), True)
+        ctx.count("defaults.constructed")
+    x64 = torch.randn(2, 3, generator=gen, dtype=torch.float64)
+    order = [("LM", torch.float64, None), ("GN", torch.float64, None), ("LM", torch.float32, None), ("LM", torch.float64, 0.7),
+             ("GN", torch.float32, 0.7), ("LM", torch.float64, None), ("GN", torch.float64, None), ("LM", torch.float64, 0.7)]
+    dead = set()
+    for kind, dt, kern in order:
+        fresh(kind, dt, kern)
+        # use every optimizer built so far (interleaved): dampings evolve, trials get rejected, losses get cached
+        for oi, (o_, m_, t_, m2, case) in enumerate(objs):
+            if oi in dead:
+                continue
+            x = x64.to(next(m_.parameters()).dtype)
+            res = []
+            for opt_ in (o_, t_):
+                try:
+                    with contextlib.redirect_stdout(io.StringIO()), warnings.catch_warnings():
+                        warnings.simplefilter("ignore")
+                        l_ = opt_.step(x)
+                    res.append(("ok", float(l_)))
+                except Exception as e:
+                    res.append(("raise", type(e).__name__))
+            pa = [raw(q).detach() for q in m_.parameters()]
+            pb = [raw(q).detach() for q in m2.parameters()]
+            pga = {k_: v_ for k_, v_ in o_.param_groups[0].items() if k_ != "params"}
+            pgb = {k_: v_ for k_, v_ in t_.param_groups[0].items() if k_ != "params"}
+            same = res[0][0] == res[1][0] and all(torch.equal(torch.nan_to_num(a_, nan=4321.0), torch.nan_to_num(b_, nan=4321.0)) for a_, b_ in zip(pa, pb)) \
+                and (res[0] == res[1] or (res[0][1] != res[0][1] and res[1][1] != res[1][1])) and repr(pga) == repr(pgb)
+            if not same:
+                dead.add(oi)
+                ctx.fail(case, f"defaults: a {case['opt']} constructed with optional arguments omitted behaves differently from one constructed with "
+                               f"the documented defaults spelled out (same model copy, same data, step by step): results {res}, "
+                               f"param_group {pga} vs {pgb}, max parameter difference "
+                               f"{max(float((a_.double() - b_.double()).abs().max()) for a_, b_ in zip(pa, pb)):.3g}")
+            elif res[0][0] == "raise" or not all(bool(torch.isfinite(a_).all()) for a_ in pa):
+                dead.add(oi)
+                ctx.count("defaults.degenerate")
+            else:
+                ctx.count("defaults.steps-compared")
+
+
+def run_repeat(ctx: Ctx, pending):
+    """(32) the same history twice in one process, with every other kind of operation in between (other optimizers, LieTensor
+    operations forward and backward on single items and all-one batches, every dtype): the two runs agree bit for bit"""
+    P = pp()
+    rng = random.Random(7_0732)
+    cases = [make_case(rng, ncalls=2, nbad=1, views=0.0, layouts=0.0, wlayouts=0.0, gradmode=0.0, inject=0.0, fork=0.0, poison=0.0,
+                       near_clamp=0.0, tie_clamp=0.0, subclass=0.0, defdtype=0.0, rgedit=0.0, pedit=0.0, bshape=bs_, dtype=dt_)
+             for bs_, dt_ in (([], "float64"), ([1], "float32"), ([1, 1], "float64"), ([2], "float32"))]
+
+    def trace(c):
+        env = build_env(c)
+        out = []
+        for ci, call in enumerate(c["calls"]):
+            setup_call(env, ci)
+            env.sol_log.clear(); env.solver.bad = list(call.get("bad") or [])
+            with contextlib.redirect_stdout(io.StringIO()), warnings.catch_warnings():
+                warnings.simplefilter("ignore")
+                try:
+                    env.opt.step(env.input, target=env.target, weight=pass_weight(env.wstep, c.get("wstyle", "list")))
+                except Exception as e:
+                    out.append(("raise", type(e).__name__))
+            out += [s_["A"].clone() for s_ in env.sol_log] + [s_["b"].clone() for s_ in env.sol_log] + [raw(p_).clone() for p_ in env.params]
+        return out
+
+    def noise():
+        for dt in (torch.float32, torch.float64):
+            for shp in ((), (1,), (1, 1), (3,)):
+                for g in U.GROUPS:
+                    a = getattr(P, "randn_" + U.ALG[g])(*shp, dtype=dt).requires_grad_(True)
+                    X = a.Exp()
+                    Y = getattr(P, "randn_" + g)(*shp, dtype=dt)
+                    pts = torch.randn(*shp, 3, dtype=dt)
+                    val = (X @ Y).Inv().Act(pts).sum() + (X.Inv() @ Y).Log().tensor().sum() + X.matrix().sum() + Y.Adj(a).tensor().sum() \
+                        + Y.AdjT(a).tensor().sum() + X.Retr(a).tensor().sum()
+                    val.backward()
+                    with torch.no_grad():
+                        I = getattr(P, "identity_" + g)(*shp, dtype=dt)
+                        I.add_(torch.randn(*shp, U.GDIM[g], dtype=dt))       # in-place update of a freshly made identity
+    for c in cases:
+        try:
+            first = trace(c)
+            noise()
+            for c2 in cases:
+                if c2 is not c:
+                    trace(c2)
+            second = trace(c)
+        except Exception as e:
+            ctx.fail(cdesc(c), f"repeat: replaying a history raises {type(e).__name__}: {str(e)[:160]}")
+            continue
+        same = len(first) == len(second) and all(
+            (a_ == b_) if isinstance(a_, tuple) else (a_.shape == b_.shape and torch.equal(torch.nan_to_num(a_, nan=12345.0), torch.nan_to_num(b_, nan=12345.0)))
+            for a_, b_ in zip(first, second))
+        if not same:
+            ctx.fail(cdesc(c), "repeat: the same history (fresh model and optimizer, same data) gives different systems / parameters the second "
+                               "time, after other operations ran in the same process")
+        ctx.note_case(("repeat", tuple(map(tuple, c["shapes"])), c["dtype"]), True)
+        ctx.count("repeat.histories")
 
 
 def run_ctor_checks(ctx: Ctx):
@@ -2809,6 +3066,30 @@ def corner_cases():
     for tm in ("above", "below"):
         for opt in ("GN", "LM"):
             out.append(make_case(rng, opt=opt, target=tm, tscale=0.5, ncalls=1, nbad=0, **q4))
+    # ---- pass 5 (classes 29-36) ---------------------------------------------------------------------------------------
+    q5 = {**q4, "tdtypes": 0.0, "asym": 0.0, "omit": 0.0}
+    # (31) the model hands back a parameter / a view of one / its input / the same tensor twice / a view of another output
+    for ai, am in enumerate(("param", "view", "input", "same_out", "view_out")):
+        for ki, (km, tg) in enumerate((("none", "near"), ("auto", "none"), ("fast", "near"))):
+            for opt in (("GN", "LM")[(ai + ki) % 2],):
+                out.append(make_case(rng, opt=opt, alias_model=am, kmode=km, target=tg, tscale=0.5, nres=2 if am == "input" else 1,
+                                     ptypes=[["E", 3], ["G", "SE3"]], ncalls=2, nbad=1 if opt == "LM" else 0, **q5))
+    # (30) targets of every dtype torch promotes with the parameters' dtype
+    for td_ in ("int64", "int32", "int16", "int8", "uint8", "float16", "bfloat16", "float32"):
+        for opt, dt_ in ((("GN", "float64"), ("LM", "float32" if td_ != "float32" else "float64"))[len(out) % 2],):
+            out.append(make_case(rng, opt=opt, target="near", tscale=1.0, ncalls=1, nbad=0, **{**q5, "dtype": dt_, "tdtypes": 1.0, "tdtype": td_}))
+    # (36) nearly symmetric weights, nearly equal items, tiny scale factors (diagonal entries between 0 and `min`)
+    for opt in ("GN", "LM"):
+        for ws in (1, 2):
+            out.append(make_case(rng, opt=opt, wmode="step", wsuffix=ws, ncalls=1, nbad=1, **{**q5, "dtype": "float64", "asym": 1.0}))
+        c = make_case(rng, opt=opt, bshape=[3], full=True, ncalls=1, nbad=0, **{**q5, "dup": 1.0, "dup_near": 1.0, "dtype": "float64"})
+        out.append(c)
+        out.append(make_case(rng, opt=opt, ptypes=[["S"], ["E", 3], ["G", "SO3"]], nres=2, ncalls=1, nbad=1, **{**q5, "dtype": "float64", "wide": 1.0}))
+    # (29)/(33) optional arguments omitted; `weight` provided as a property of a user subclass
+    for opt in ("GN", "LM"):
+        out.append(make_case(rng, opt=opt, kmode="none", wmode="none", ncalls=2, nbad=0, **{**q5, "omit": 1.0}))
+        out.append(make_case(rng, opt=opt, wmode="ctor", ncalls=2, nbad=1, **{**q5, "subclass": 1.0, "prop_weight": 1.0}))
+        out.append(make_case(rng, opt=opt, wmode="both", ncalls=2, nbad=0, **{**q5, "subclass": 1.0, "prop_weight": 1.0}))
     # frozen parameter (known defect on the current tree)
     out.append(make_case(rng, opt="GN", ptypes=[["E", 3], ["G", "SE3"]], frozen=[True, False], dtype="float64"))
     out.append(make_case(rng, opt="LM", ptypes=[["G", "SO3"], ["A", "SE3"], ["S"]], frozen=[False, True, False], dtype="float64"))
@@ -2865,6 +3146,8 @@ def run(ctx: Ctx):
     run_wdiag(ctx, pending, wdiag_configs(rng, ctx.quick))
     flush(ctx, pending)
     run_ctor_checks(ctx)
+    run_defaults(ctx)
+    run_repeat(ctx, pending)
     run_large_update(ctx, pending)
     run_large_corrector(ctx)
     run_large(ctx, pending)
